@@ -50,8 +50,8 @@ fn main() {
         vh::inconclusive("bad shape/order");
         return;
     };
-    if shape == Shape::VecAligned {
-        vh::inconclusive("vecalign needs the global allocator: alloc_probe only");
+    if matches!(shape, Shape::VecAligned | Shape::VecShrink) {
+        vh::inconclusive("the Vec shapes need the global allocator: alloc_probe only");
         return;
     }
     // a crash in here can only come from the allocator (the workload touches its own blocks only)
@@ -67,6 +67,10 @@ fn main() {
         let mut st = RepStats::default();
         unsafe {
             rep_allocate(&mut heap, shape, &plan, &mut slots, &mut st);
+            if samples_mid(shape) {
+                let s = heap.0.verif_stats();
+                println!("R {} {} 0 {}", rep, s.footprint / 4096, vmsize_pages().saturating_sub(base_vm));
+            }
             rep_free(&mut heap, order, a.seed ^ rep.wrapping_mul(0x9E37_79B9), &mut slots, &mut st);
         }
         total.peak_live = total.peak_live.max(st.peak_live);
